@@ -93,8 +93,8 @@ def cv(x):
             a = np.ascontiguousarray(x, dtype=float) + 0.0
             return "arr%s:%s" % (list(a.shape), hashlib.sha1(a.tobytes()).hexdigest()[:16])
         return ["arr-obj"] + [cv(v) for v in x.tolist()]
-    if isinstance(x, _Metadata):
-        return cv(x._data)
+    if isinstance(x, _Metadata):  # a missing key reads as None: an entry holding None is no content
+        return cv({k: v for k, v in x._data.items() if v is not None})
     if isinstance(x, dict):
         d = {str(k): cv(v) for k, v in x.items()}
         if len(d) > 40:
@@ -456,7 +456,7 @@ def runSet(specs, sample=False):
         return 0
     blobs = [pickle.dumps(l) for l in built]
     snaps = [snapLib(l, ordered=False) for l in built]
-    size = (k, sum(len(s["labels"]) for s in snaps), GROUPS[partsOf(specs[0])[0]["groups"]][0])
+    size = (sum(len(partsOf(s)) for s in specs), sum(len(s["labels"]) for s in snaps), GROUPS[partsOf(specs[0])[0]["groups"]][0])
     inp = {"clause": "merge", "libs": specs}
     setKey = hashlib.sha1(json.dumps(specs, sort_keys=True).encode()).hexdigest()[:12]
     # ---- expectation from the sources alone
@@ -559,6 +559,14 @@ def mergeClause():
             sets.append(genSet(k))
     # the plain fixtures in all orders (neutron + gamma + production for AA and AB)
     plain = [{"kind": kind, "base": s, "sfx": s, "groups": "fixture", "seed": 0, "tag": READERS[kind][1] % s} for s in ("AA", "AB") for kind in KINDS]
+    def tiny(kind, base, sfx, keep, **kw):
+        return dict({"kind": kind, "base": base, "sfx": sfx, "keep": keep, "groups": "tiny", "seed": 0}, **kw)
+
+    # smallest sets first: one nuclide, two groups
+    sets.insert(0, [tiny("gam", "AA", "AB", [1]), tiny("iso", "AA", "AA", [0], chi=True), tiny("iso", "AA", "AC", [1])])
+    sets.insert(0, [tiny("iso", "AA", "AA", [0]), tiny("iso", "AB", "AB", [0])])
+    sets.insert(0, [tiny("iso", "AA", "AA", [0]), tiny("gam", "AA", "AA", [0]), tiny("pmx", "AA", "AA", [0])])
+    sets.insert(0, [tiny("iso", "AA", "AA", [0]), tiny("pmx", "AA", "AA", [0])])
     sets.insert(0, plain[:3])
     sets.insert(1, [plain[0], plain[3]])
     if THOROUGH:
@@ -570,7 +578,7 @@ def mergeClause():
     for i, specs in enumerate(sets):
         if time.time() - t0 > budget:
             break
-        runSet(specs, sample=(i == 2))
+        runSet(specs, sample=(i == 8))
         done += 1
         fams.add(partsOf(specs[0])[0]["groups"])
     B.extra["merge_sets_planned"] = len(sets)
